@@ -407,3 +407,106 @@ func ruleRC(w *world.World, r *report.RuleResult) {
 		r.Fail("get-state-callbacks", w.Pos(ctor.Pos()), fmt.Sprintf("only %d state callbacks found in NewSugarDB (snapshot, AOF preamble and raft expected)", nGet))
 	}
 }
+
+func init() {
+	register("RS", 2, "raft snapshot instant: FSM.Snapshot copies the state synchronously (it calls the state callback itself); Persist, which the library runs later and concurrently with Apply, only serialises the data captured then", ruleRS)
+	register("NUM", 10, "numeric conversion agreement: every strconv.ParseInt / ParseFloat / FormatInt / FormatFloat in handler code uses base 10 and 64 bits (the width of the stored counters) — sibling handlers of one family must not disagree", ruleNUM)
+}
+
+func ruleRS(w *world.World, r *report.RuleResult) {
+	snap := w.Func("internal/raft.(*FSM).Snapshot")
+	pers := w.Func("internal/raft.(*Snapshot).Persist")
+	if snap == nil || pers == nil {
+		r.Err = fmt.Errorf("raft FSM.Snapshot / Snapshot.Persist not found")
+		return
+	}
+	isStateCall := func(c ssa.CallInstruction) bool {
+		n, ok := fieldFuncCall(c)
+		return ok && strings.Contains(strings.ToLower(n), "getstate")
+	}
+	calls := 0
+	for _, c := range world.Calls(snap) {
+		if isStateCall(c) {
+			calls++
+		}
+	}
+	key := world.FuncName(snap) + "|copies-state-synchronously"
+	if calls > 0 {
+		r.OK(key, w.Pos(snap.Pos()), "FSM.Snapshot calls the state callback itself: the snapshot holds the state as of the log index raft assigns to it")
+	} else {
+		r.Fail(key, w.Pos(snap.Pos()), "FSM.Snapshot does not copy the state itself: raft labels the snapshot with the index at the time of Snapshot() and keeps applying entries until Persist runs, so a state captured later already contains entries that a restoring node will apply again (non-idempotent writes take effect twice)")
+	}
+	late := 0
+	for _, c := range world.Calls(pers) {
+		if isStateCall(c) {
+			late++
+		}
+	}
+	key = world.FuncName(pers) + "|no-late-state-read"
+	if late == 0 {
+		r.OK(key, w.Pos(pers.Pos()), "Persist serialises the data captured by Snapshot and does not read the live state")
+	} else {
+		r.Fail(key, w.Pos(pers.Pos()), "Persist reads the live state through the state callback: it runs concurrently with Apply, after the snapshot index was fixed")
+	}
+}
+
+func ruleNUM(w *world.World, r *report.RuleResult) {
+	cmds, err := w.Commands()
+	if err != nil {
+		r.Err = err
+		return
+	}
+	hs, _ := handlersOf(cmds, nil)
+	seen := map[ssa.Instruction]bool{}
+	for _, h := range hs {
+		for _, fn := range w.ReachFrom(h, false).Fns {
+			for _, c := range world.Calls(fn) {
+				if seen[c] {
+					continue
+				}
+				f := c.Common().StaticCallee()
+				if f == nil {
+					continue
+				}
+				args := c.Common().Args
+				var base, bits int64 = -1, -1
+				switch f.String() {
+				case "strconv.ParseInt", "strconv.ParseUint":
+					b, ok1 := world.ConstInt(args[1])
+					s, ok2 := world.ConstInt(args[2])
+					if !ok1 || !ok2 {
+						continue
+					}
+					base, bits = b, s
+				case "strconv.ParseFloat":
+					s, ok := world.ConstInt(args[1])
+					if !ok {
+						continue
+					}
+					base, bits = 10, s
+				case "strconv.FormatInt":
+					b, ok := world.ConstInt(args[1])
+					if !ok {
+						continue
+					}
+					base, bits = b, 64
+				case "strconv.FormatFloat":
+					s, ok := world.ConstInt(args[3])
+					if !ok {
+						continue
+					}
+					base, bits = 10, s
+				default:
+					continue
+				}
+				seen[c] = true
+				key := fmt.Sprintf("%s|%s", world.FuncName(fn), f.Name())
+				if base == 10 && bits == 64 {
+					r.OK(key, w.InstrPos(c), "base 10, 64 bits")
+				} else {
+					r.Fail(key, w.InstrPos(c), fmt.Sprintf("%s is called with base %d / bit size %d, while every other numeric conversion of the command handlers uses base 10 and 64 bits (the stored counters are 64-bit): values outside the narrower range are rejected or mis-parsed by this command only", f.String(), base, bits))
+				}
+			}
+		}
+	}
+}
